@@ -262,7 +262,23 @@ func c17Segment(r *vlib.Rand, g *c17GenCfg, room int) []byte {
 		return n
 	}
 	var out []byte
-	switch r.Intn(14) {
+	switch r.Intn(15) {
+	case 14: // cells that hold "nothing-like" bytes (NUL, 0xff, blank, DEL) and are then blanked or overwritten in place
+		n := capN(r.Range(1, 6))
+		odd := []byte{0x00, 0xff, ' ', 0x7f, 0x00, 0xff}
+		for i := 0; i < n; i++ {
+			switch r.Intn(4) {
+			case 0:
+				out = append(out, odd[r.Intn(len(odd))], '\b')
+			case 1:
+				out = append(out, c17Printable(r), odd[r.Intn(len(odd))], c17Printable(r), '\r', '\t')
+			case 2:
+				out = append(out, odd[r.Intn(len(odd))], odd[r.Intn(len(odd))], '\r', ' ', ' ')
+			default:
+				out = append(out, odd[r.Intn(len(odd))], '\b', odd[r.Intn(len(odd))])
+			}
+		}
+		out = out[:capN(len(out))]
 	case 0: // short printable text
 		n := capN(r.Range(1, 3*w+2))
 		for i := 0; i < n; i++ {
